@@ -93,6 +93,9 @@ class DirectFilter(object):
     def delete_region(self, region_id):
         self.state.deleteRegion(region_id)
 
+    def replace_region(self, reg):
+        self.state.replaceRegion(make_region(reg), False)
+
 
 class AtModel(object):
     """Independent evaluation of the @-command action table."""
@@ -240,6 +243,14 @@ def run(case, filter_factory=DirectFilter, stop_on_exception=True, observer=None
             regions[:] = [r for r in regions if r.get("id") != item[1]]
             try:
                 flt.delete_region(item[1])
+            except Exception as exc:  # pylint: disable=broad-except
+                it.exception = "%s: %s" % (type(exc).__name__, exc)
+            it.regions = list(regions)
+        elif it.kind == "rereg":
+            # ["rereg", region]: the user edits a region mid-print (same id, new geometry; shrinking permitted)
+            regions[:] = [dict(item[1]) if r.get("id") == item[1].get("id") else r for r in regions]
+            try:
+                flt.replace_region(item[1])
             except Exception as exc:  # pylint: disable=broad-except
                 it.exception = "%s: %s" % (type(exc).__name__, exc)
             it.regions = list(regions)
